@@ -2,7 +2,7 @@
 import json, os, re, shutil, subprocess, sys, tempfile, time, hashlib
 from concurrent.futures import ThreadPoolExecutor
 
-VERIF = "/verif"
+VERIF = os.path.dirname(os.path.dirname(os.path.abspath(__file__)))   # /verif, or a snapshot of it (vp run)
 REPO = "/repo"
 BUILD = os.path.join(VERIF, ".build")
 SPEC = os.path.join(VERIF, "spec")
